@@ -266,6 +266,9 @@ def run(ctx):
                 o = apply_op(st, op, DDSException)
                 if op[0] == "fetch_paths" and o == "EXC:FileNotFoundError":
                     o = "err"
+                if isinstance(o, dict) and "closed" in o:
+                    # (the flag of resource-like values is the business of C12)
+                    o = dict((k_, v_) for (k_, v_) in o.items() if k_ != "closed")
                 outs.append(o)
             data_root = os.path.join(d, "dds_data")
             data = files_under(data_root) if os.path.isdir(data_root) else {}
@@ -288,6 +291,9 @@ def run(ctx):
             # oracle on the files
             if ct == "NO_COMMIT" and data:
                 res.violations.append({"what": "commit type none wrote under the data directory: %s" % sorted(data), "input": {"commit": ct, "ops": ops}, "kf": None})
+            if ct == "FULL" and copies != sorted(p_ for (p_, _) in records):
+                res.violations.append({"what": "commit type full: the paths with a redirect record are %s, the copies under the data directory are at %s (a copy per kept "
+                                               "path, at the path, is expected)" % (sorted(p_ for (p_, _) in records), copies), "input": {"commit": ct, "ops": ops}, "kf": None})
             if ct == "LINK_ONLY" and copies:
                 res.violations.append({"what": "commit type links_only copied data: %s" % copies, "input": {"commit": ct, "ops": ops}, "kf": None})
         if ctx["driver_ok"]:
